@@ -239,6 +239,7 @@ type Sim struct {
 	faultsFired      int
 	lateFrom, lateSeen int // C11 canary-fail-late: faults after call lateFrom are followed by a long pause
 	finalState       string
+	stuck int // Drain: consecutive waits for a sleeping task
 	faultyDrain bool // Drain draws API faults too (state-injection bodies)
 	QuiesceHook func(round int)
 }
@@ -550,16 +551,20 @@ func (s *Sim) exec(c *Call) {
 func (s *Sim) Crash() {
 	s.Stats.Faults["crash"]++
 	s.logf("crash")
+	var victims []*Task
 	for k, t := range s.inflight {
 		if t.Ctrl == CtrlCLI {
 			continue
 		}
 		t.Crashed = true
+		victims = append(victims, t)
 		delete(s.inflight, k)
 	}
 	s.buildReconcilers()
-	// release the parked calls of the dead tasks; they run to their end on errors
-	for {
+	// release the parked calls of the dead tasks; they run to their end on errors. A dead task
+	// that sleeps (back-off inside the reconcile) is waited for on the fake clock, so that none of
+	// its goroutines outlives the crash.
+	for waited := 0; ; {
 		synctest.Wait()
 		var dead []*Call
 		for _, c := range s.canonicalPending() {
@@ -568,7 +573,21 @@ func (s *Sim) Crash() {
 			}
 		}
 		if len(dead) == 0 {
-			break
+			alive := false
+			s.mu.Lock()
+			for _, t := range victims {
+				if !t.Done {
+					alive = true
+				}
+			}
+			s.mu.Unlock()
+			if !alive || waited > 900 {
+				break
+			}
+			waited++
+			time.Sleep(time.Second)
+			s.Stats.SimTime += time.Second
+			continue
 		}
 		for _, c := range dead {
 			s.grant(c, "")
@@ -602,10 +621,20 @@ func (s *Sim) Drain() {
 		p := s.canonicalPending()
 		if len(p) == 0 {
 			if len(s.inflight) != 0 {
-				panic(fmt.Sprintf("sim: %d tasks in flight but nothing pending", len(s.inflight)))
+				// a task is neither finished nor parked at the gate: it sleeps (a back-off inside the
+				// reconcile). The fake clock moves on until it comes back.
+				s.stuck++
+				if s.stuck > 900 {
+					panic(fmt.Sprintf("sim: %d tasks in flight but nothing pending after 15 simulated minutes", len(s.inflight)))
+				}
+				time.Sleep(time.Second)
+				s.Stats.SimTime += time.Second
+				continue
 			}
+			s.stuck = 0
 			return
 		}
+		s.stuck = 0
 		var c *Call
 		if s.rngSched != nil && len(p) > 1 {
 			c = p[s.rngSched.IntN(len(p))]
